@@ -145,7 +145,8 @@ def r10_2(ctx: Ctx) -> None:
         if isinstance(node, ast.For):
             iters.append((node.target, node.iter, node.body))
         elif isinstance(node, (ast.ListComp, ast.GeneratorExp)):
-            iters += [(gen.target, gen.iter, [node.elt]) for gen in node.generators]
+            iters += [(gen.target, gen.iter, [node.elt] + [later.iter for later in node.generators[i + 1:]])
+                      for i, gen in enumerate(node.generators)]
         for target, it, body in iters:
             stmt = next((a for a in [node] + list(_ancestors(node)) if isinstance(a, ast.stmt)), None)
             resolved = inline_reaching(tcfg, stmt, it) if stmt is not None else it
